@@ -5,6 +5,8 @@ package main
 // edge of) one rule of the property.
 
 import (
+	"fmt"
+	"strings"
 	. "vh/kit"
 
 	"github.com/notaryproject/notation-go"
@@ -566,6 +568,7 @@ func generate(a *Args, rng *Rng, run func(*c06Case), runSeq func([]*c06Case)) {
 
 		// ---- 10. histories: ONE verifier instance, several calls whose expected verdict changes
 		histories(rng, runSeq, thorough)
+		namespaces(rng, runSeq, thorough)
 	}
 
 	// ---- 6. random mixture
@@ -719,4 +722,81 @@ func histories(rng *Rng, runSeq func([]*c06Case), thorough bool) {
 		func(c *c06Case) { okTok(c, "b"); c.Win[len(c.Win)-1] = [2]int{-100, -30} },
 		func(c *c06Case) { okTok(c, "b") },
 	})
+}
+
+// namespaces: ONE verifier holding an OCI and a blob document whose statements have the same names (p, q) but differ
+// in exactly what this property is about (tsa store listed or not and which, verifyTimestamp, actions of expiry and
+// authenticTimestamp); Verify and VerifyBlob (and the two OCI / two blob statements) are alternated on it, each
+// step judged by the stateless model on the statement that applies to its entry point.
+func namespaces(rng *Rng, runSeq func([]*c06Case), thorough bool) {
+	both := []string{"ca:s", "signingAuthority:s"}
+	st := func(tsa []string, opt, level, aexp, ats string) *c06Case {
+		stores := append([]string{}, both...)
+		pos := rng.Intn(len(stores) + 1)
+		for _, t := range tsa {
+			stores = insertAt(stores, t, pos)
+		}
+		return &c06Case{Stores: stores, Opt: opt, Level: level, AExp: aexp, ATs: ats}
+	}
+	layouts := []map[string]*c06Case{
+		{ // OCI p demands a timestamp, blob p does not; q the other way round, with another TSA
+			"oci:p":  st([]string{"tsa:a"}, "always", "strict", "Enforce", "Enforce"),
+			"blob:p": st(nil, "", "permissive", "Log", "Log"),
+			"oci:q":  st(nil, "afterCertExpiry", "audit", "Log", "Enforce"),
+			"blob:q": st([]string{"tsa:b"}, "", "strict", "Enforce", "Log"),
+		},
+		{ // same stores, different option and actions
+			"oci:p":  st([]string{"tsa:a"}, "afterCertExpiry", "permissive", "Log", "Log"),
+			"blob:p": st([]string{"tsa:a"}, "always", "strict", "Enforce", "Enforce"),
+			"oci:q":  st([]string{"tsa:b"}, "", "strict", "Log", "Enforce"),
+			"blob:q": st([]string{"tsa:a", "tsa:b"}, "afterCertExpiry", "audit", "Enforce", "Log"),
+		},
+	}
+	orders := [][]string{
+		{"oci:p", "blob:p"}, {"blob:p", "oci:p"}, {"oci:p", "blob:p", "oci:p"}, {"blob:p", "oci:p", "blob:p"},
+		{"oci:p", "oci:q", "oci:p", "oci:q"}, {"blob:q", "blob:p", "blob:q"}, {"oci:q", "blob:q", "oci:p", "blob:p", "oci:q"},
+	}
+	envs := []func(c *c06Case){
+		func(c *c06Case) {}, // valid now, no token
+		func(c *c06Case) { c.Tok = tokDesc{Kind: "ok", Msg: "sig", PKI: "a", GenH: -20, Acc: 1} },
+		func(c *c06Case) {
+			c.Win[0] = [2]int{-100, -5}
+			c.Tok = tokDesc{Kind: "ok", Msg: "sig", PKI: "a", GenH: -20, Acc: 1}
+		},
+		func(c *c06Case) { c.Win[0] = [2]int{-100, -5} },
+		func(c *c06Case) { c.Win[len(c.Win)-1] = [2]int{5, 100} },
+		func(c *c06Case) { c.ExpH, c.SigH = ip(-3), -10 },
+		func(c *c06Case) {
+			c.Win[0] = [2]int{-100, -5}
+			c.Tok = tokDesc{Kind: "ok", Msg: "sig", PKI: "b", GenH: -20, Acc: 1}
+		},
+	}
+	for li, layout := range layouts {
+		for oi, order := range orders {
+			// every step of one history presents the same kind of envelope, so that only the statement differs
+			kinds := []int{(li + oi) % len(envs), (li + oi + 3) % len(envs)}
+			if thorough {
+				kinds = []int{0, 1, 2, 3, 4, 5, 6}
+			}
+			for _, kind := range kinds {
+				sess := &session{rv: &tsRev{}, stmts: layout}
+				if rng.Bool() {
+					sess.opts = &notation.VerifierVerifyOptions{PluginConfig: map[string]string{"cfg": "1"}, UserMetadata: map[string]string{"io.verif/c06": "frame"}}
+				}
+				var cs []*c06Case
+				for i, entry := range order {
+					c := valid(rng, false, 1+rng.Intn(3))
+					c.Fam = "namespace:" + strings.Join(order, ",")
+					c.Hist = fmt.Sprintf("ns%d.%d.%d#%d", li, oi, kind, i+1)
+					c.Entry = entry
+					s := layout[entry]
+					c.Stores, c.Opt, c.Level, c.AExp, c.ATs = s.Stores, s.Opt, s.Level, s.AExp, s.ATs
+					c.sess = sess
+					envs[kind](c)
+					cs = append(cs, c)
+				}
+				runSeq(cs)
+			}
+		}
+	}
 }
